@@ -36,6 +36,8 @@ BENIGN = [
     ("server", "crates/resolved/src/main.rs", "                            let id = match error {\n                                TcpError::TooShort { id, .. } => id,\n                                TcpError::IO { id, .. } => id,\n                            };", "                            let id = match error {\n                                TcpError::IO { id, .. } => id,\n                                TcpError::TooShort { id, .. } => id,\n                            };", "reordered match arms"),
     ("hosts_conv", "crates/dns-types/src/hosts/types.rs", "        for (name, address) in hosts.v4 {\n            zone.insert(&name, RecordTypeWithData::A { address }, TTL);", "        for (name, address) in hosts.v4 {\n            let data = RecordTypeWithData::A { address };\n            zone.insert(&name, data, TTL);", "introduced a local"),
     ("wire_decode", "crates/dns-types/src/protocol/deserialise.rs", "        let rdata_stop = buffer.position;\n\n        if rdata_stop == rdata_start + (rdlength as usize) {", "        let rdata_stop = buffer.position;\n\n        if rdata_start + (rdlength as usize) == rdata_stop {", "flipped equality"),
+    ("wire_codec", "crates/dns-types/src/protocol/serialise.rs", "        for rr in &self.answers {\n            rr.serialise(buffer)?;\n        }", "        for record in &self.answers {\n            record.serialise(buffer)?;\n        }", "renamed loop variable"),
+    ("wire_decode", "crates/dns-types/src/protocol/deserialise.rs", "        let mut questions = Vec::with_capacity(qdcount.into());\n        let mut answers = Vec::with_capacity(ancount.into());", "        let mut answers = Vec::with_capacity(ancount.into());\n        let mut questions = Vec::with_capacity(qdcount.into());", "swapped lets"),
     ("hosts_text", "crates/dns-types/src/hosts/deserialise.rs", "    if new_names.is_empty() {\n        Ok(None)\n    } else {\n        Ok(Some((address, new_names)))\n    }", "    if !new_names.is_empty() {\n        Ok(Some((address, new_names)))\n    } else {\n        Ok(None)\n    }", "negated condition, swapped branches"),
     ("hosts_text", "crates/dns-types/src/hosts/deserialise.rs", "        let mut hosts = Self::new();\n        for line in data.lines() {", "        let mut hosts = Self::new();\n        // one mapping line at a time\n        for line in data.lines() {", "added comment"),
     ("hosts_conv", "crates/dns-types/src/hosts/types.rs", "        let mut zone = Self::default();\n        for (name, address) in hosts.v4 {", "        let mut zone = Zone::default();\n        for (name, address) in hosts.v4 {", "Self as Zone"),
